@@ -20,7 +20,7 @@ BITS = [(1, "changed-sample-recorded-twice"), (2, "row-count-differs-from-matchi
 
 ASSUMPTIONS = [
     "Go's regexp is outside the model: per (line, parser) the harness supplies whether rp.re matches and what rp.re.ReplaceAllString captures for the time-stamp and value groups (same calls as detectSignals); patterns describe whole lines",
-    "time.Parse (ts_rfc3339, ts_log layouts) is outside the model: the harness supplies the parsed date minus the epoch, or the failure",
+    "time.Parse (ts_rfc3339, ts_log layouts) is outside the model: the harness supplies the parsed date minus the epoch, or the failure; for the fixed-width shape the ts_log expansion captures, parse_ts_log models it (2-digit year pivot 69, field ranges, leap years) and is compared with time.Parse on every generated stamp",
     "strconv.ParseFloat is modelled by parse_decimal (decimal syntax, out-of-range error) and compared with strconv on every captured numeral of every run; hexadecimal floats, underscores, inf/nan are outside the model and not generated",
     "float64 is modelled by exact rationals / exact nanosecond counts: generated numbers are eighths, time stamps sixteenths of a second (halves beyond 3e8 s), on which the code's float arithmetic is exact; rounding is not modelled; int64 overflow of time.Duration is outside the model",
     "ts_now rows carry the wall clock: the model takes the reception instant from the observed sigEvent; the oracle only requires it inside the [before, after] bracket of the detectSignals call and non-decreasing within a file",
@@ -176,7 +176,7 @@ def run(tier, seed):
         return res.finish()
     bad_oracle = [c for c in ev["OC"] if c]
     report_oracle(res, ev["OC"], cases, describe_inproc)
-    n_model = {"detect": len(ev["MD"]), "parse_decimal": len(ev["MP"]), "rows": len(ev["MR"])}
+    n_model = {"detect": len(ev["MD"]), "parse_decimal_and_ts_log": len(ev["MP"]), "rows": len(ev["MR"])}
     res.coverage["disagreements"] = {"model_vs_impl": n_model, "oracle_failures": len(bad_oracle),
                                      "generator_expectation_vs_go_regexp": len(summary.get("intent_mismatch") or [])}
     if not res.violations and not res.known:
@@ -201,3 +201,12 @@ def run(tier, seed):
                 if esummary["stats"].get("inconclusive-play-cut-short"):
                     res.notes.append("%d end-to-end plays ended before a spotlight had printed all its lines (sentinel row missing): not judged" % esummary["stats"]["inconclusive-play-cut-short"])
     return res.finish()
+
+
+def replay(path):
+    """./check C08 --replay <file>: run the replay's configuration and items
+    through the real code of the current tree again (row counts per file)."""
+    bins = vlib.build_bins(["c08"])
+    rc, out = vlib.run([bins["c08"], "-replay", path], timeout=300)
+    print(out)
+    return rc
